@@ -27,6 +27,7 @@ func renameAll(srcDir, dst, suffix string) error {
 	if err != nil {
 		return err
 	}
+	_ = p
 	own := map[*types.Package]bool{}
 	for _, pk := range p.Pkgs {
 		own[pk.Types] = true
